@@ -1,6 +1,6 @@
 //! M-FRAME: alignment of the input AST (after resolver) with the visitor's raw output AST.
-//! Everything outside JSX expressions must be unchanged, except: generated items at the
-//! head of statement lists, expression-bodied arrows converted to a block that only holds
+//! Everything outside JSX expressions must be unchanged, except: generated items inserted
+//! into statement lists, expression-bodied arrows converted to a block that only holds
 //! generated declarations + `return <original body>`, and (resolveType) the options argument
 //! of `defineComponent(...)` calls.
 use serde_json::{json, Value};
@@ -226,18 +226,37 @@ fn walk(cx: &mut Ctx, a: &Value, b: &Value, path: &str) -> Res {
             Ok(())
         }
         (Value::Array(va), Value::Array(vb)) => {
-            let mut vb_slice: &[Value] = vb;
-            if va.len() != vb.len() {
-                // generated items may only be inserted at the head of a statement list
-                let extra = vb.len().saturating_sub(va.len());
-                if vb.len() < va.len() || !vb[..extra].iter().all(is_generated_item) {
-                    return fail(path, "list length changed (not by generated head items)", &json!(va.len()), &json!(vb.len()));
+            if va.len() == vb.len() {
+                for (i, (x, y)) in va.iter().zip(vb.iter()).enumerate() {
+                    walk(cx, x, y, &format!("{path}[{i}]"))?;
                 }
-                cx.generated_items += extra;
-                vb_slice = &vb[extra..];
+                return Ok(());
             }
-            for (i, (x, y)) in va.iter().zip(vb_slice.iter()).enumerate() {
-                walk(cx, x, y, &format!("{path}[{i}]"))?;
+            // Generated items (imports, helper functions, temporaries: dummy-span declarations, which the
+            // parser never produces) may be inserted anywhere in a statement list; every input item must
+            // still be there, unchanged and in the same order.
+            if vb.len() < va.len() {
+                return fail(path, "list length changed (not by generated items)", &json!(va.len()), &json!(vb.len()));
+            }
+            let mut j = 0usize;
+            for (i, x) in va.iter().enumerate() {
+                // skip generated items of the output, but never more than the surplus
+                while j < vb.len() && is_generated_item(&vb[j]) && (vb.len() - j) > (va.len() - i) {
+                    cx.generated_items += 1;
+                    j += 1;
+                }
+                if j >= vb.len() {
+                    return fail(path, "list length changed (not by generated items)", &json!(va.len()), &json!(vb.len()));
+                }
+                walk(cx, x, &vb[j], &format!("{path}[{i}]"))?;
+                j += 1;
+            }
+            while j < vb.len() {
+                if !is_generated_item(&vb[j]) {
+                    return fail(path, "list length changed (not by generated items)", &json!(va.len()), &json!(vb.len()));
+                }
+                cx.generated_items += 1;
+                j += 1;
             }
             Ok(())
         }
